@@ -312,6 +312,8 @@ var c20ArgVals = []c20Arg{
 	{`[{k: nil}, [nil], 0, ""]`, []any{map[string]any{"k": nil}, []any{nil}, int64(0), ""}},
 	// a string literal with HTML-special characters: the function is to receive the text as written
 	{`"<b>&"`, "<b>&"},
+	// text that spells an entity, supplied as data (amp is a data variable): it is text, not markup to be decoded
+	{"amp", "a&amp;b &lt;"}, {"[amp, 1]", []any{"a&amp;b &lt;", int64(1)}}, {"{k: amp}", map[string]any{"k": "a&amp;b &lt;"}},
 }
 
 var c20ArrResults = []any{
@@ -406,7 +408,7 @@ func c20Convert(cs c20Case) (ok bool, sig, expected, observed string) {
 		if err != nil {
 			return Outcome{Kind: KErr, Msg: "registration failed: " + err.Error()}
 		}
-		out, e := textwire.EvaluateString("[{{ "+recv+".probe("+strings.Join(args, ", ")+") }}]", map[string]any{"x": c20RecvGo[cs.Type]})
+		out, e := textwire.EvaluateString("[{{ "+recv+".probe("+strings.Join(args, ", ")+") }}]", map[string]any{"x": c20RecvGo[cs.Type], "amp": "a&amp;b &lt;"})
 		if e != nil {
 			return parseErr(e)
 		}
